@@ -42,6 +42,15 @@ def impl_labels(scores, targets, thr, desc, entry):
 
     if entry == "_update_labels":
         return D._update_labels(scores, targets, thr, desc)
+    if entry == "_update_labels-series":      # feature columns arrive as pandas Series
+        return D._update_labels(pd.Series(np.asarray(scores, dtype=float)), pd.Series(np.asarray(targets, dtype=bool)),
+                                thr, desc)
+    if entry == "LinearPsmDataset-column":
+        df = pd.DataFrame({"t": targets, "spec": np.arange(len(scores)),
+                           "pep": [f"P{i}" for i in range(len(scores))], "f": np.asarray(scores, dtype=float)})
+        ds = D.LinearPsmDataset(df, target_column="t", spectrum_columns="spec", peptide_column="pep",
+                                enforce_checks=False)
+        return ds._update_labels(ds.data.loc[:, "f"], thr, desc)
     if entry == "LinearPsmDataset":
         df = pd.DataFrame(
             {
@@ -58,7 +67,7 @@ def impl_labels(scores, targets, thr, desc, entry):
     raise AssertionError(entry)
 
 
-SCORE_DTYPES = ["float64", "float32", "int8", "uint8", "int64"]
+SCORE_DTYPES = ["float64", "float64", "float32", "int8", "uint8", "int64"]
 LABEL_KINDS = ["bool", "int01", "float01"]
 
 
@@ -71,6 +80,10 @@ def gen_case(rng, nmax):
         vals = rng.sample(range(0, 200), pool)
     elif sdt in ("int8", "int64"):
         vals = rng.sample(range(-100, 100), pool)
+    elif sdt == "float64" and rng.random() < 0.6:
+        # distinct float64 values that collapse to one float32 value (near-ties must stay distinct)
+        base = [Fraction(rng.randint(-40, 40), rng.choice([1, 2, 4])) for _ in range(max(1, pool // 3 + 1))]
+        vals = [b + Fraction(k, 2 ** 30) for b in base for k in range(3)][:max(pool, 1)]
     else:
         # dyadic rationals: exactly representable in float32 and float64
         vals = [Fraction(rng.randint(-4000, 4000), rng.choice([1, 2, 4, 8, 16])) for _ in range(pool)]
@@ -92,6 +105,26 @@ def gen_case(rng, nmax):
     desc = rng.random() < 0.5
     lk = rng.choice(LABEL_KINDS)
     return dict(scores=scores, labels=labels, desc=desc, sdtype=sdt, lkind=lk, pat=pat)
+
+
+def gen_eps_case(rng):
+    """k targets a hair (distinct in float64, equal in float32) above a decoy: the targets' q-value is
+    (0+1)/k only if the near-tie is respected; rounding the scores to single precision merges them with the decoy"""
+    k = rng.randint(2, 8)
+    base = Fraction(rng.randint(-50, 50), rng.choice([1, 2, 4]))
+    eps = Fraction(1, 2 ** rng.choice([28, 30, 33]))
+    scores = [base + eps * (i + 1) for i in range(k)] + [base]
+    labels = [True] * k + [False]
+    for _ in range(rng.randint(0, 4)):
+        scores.append(base - rng.randint(1, 9))
+        labels.append(rng.random() < 0.5)
+    order = list(range(len(scores)))
+    rng.shuffle(order)
+    desc = rng.random() < 0.5
+    if not desc:
+        scores = [-x for x in scores]
+    return dict(scores=[scores[i] for i in order], labels=[labels[i] for i in order], desc=desc, sdtype="float64",
+                lkind="bool", pat="eps-above-decoy")
 
 
 def to_arrays(case):
@@ -220,7 +253,7 @@ def from_json(d):
 def decorate(rng, c):
     c["thr"] = Fraction(rng.choice([0.01, 0.05, 0.1, 0.25, 0.5, 0.75, 1.0, 0.3]))
     c["entry"] = "qvalues_from_scores" if (c["desc"] and rng.random() < 0.3) else "tdc"
-    c["lentry"] = rng.choice(["_update_labels", "LinearPsmDataset"])
+    c["lentry"] = rng.choice(["_update_labels", "LinearPsmDataset", "_update_labels-series", "LinearPsmDataset-column"])
     if c["lentry"] == "_update_labels" and c["sdtype"] not in ("float64",):
         # typeguard on `_update_labels` wants float arrays; integer/float32 score dtypes go through tdc only
         pass
@@ -328,6 +361,11 @@ def main(chk, args):
     cases = corpus_cases()
     n = 600 if chk.tier == "quick" else 6000
     cases += [decorate(rng, gen_case(rng, 60)) for _ in range(n)]
+    for _ in range(n // 6):
+        c = decorate(rng, gen_eps_case(rng))
+        k = sum(c["labels"][i] for i in range(len(c["labels"])))
+        c["thr"] = Fraction(rng.choice([0.3, 0.5, 0.6, 0.75]))
+        cases.append(c)
     eval_cases(chk, cases, None)
     malformed(chk, rng, 100 if chk.tier == "quick" else 1000)
     if chk.tier == "thorough":
